@@ -63,7 +63,7 @@ def run(facts, rep, tier):
             if t.startswith("df"):
                 df = int(t[2:])
         ok = isinstance(g, EnumV) and g.may("Some")
-        why = "never accepted: %r" % (g,)
+        why = "never accepted / not determined: %r" % (g,)
         if ok and df not in (11, 17, 18) and not g.only("Some"):
             ok, why = False, "may be rejected although DF%s has no checkable parity: %r" % (df, g)
         if ok:
